@@ -116,7 +116,7 @@ func c04w1(c *an.Ctx) {
 		switch {
 		case op.Kind == "io-close":
 			return "closing the transport is the interrupt itself", true
-		case id == "cond-wait(drpcstream.packetBuffer.cond)" && in == "(*packetBuffer).Close":
+		case strings.HasPrefix(id, "cond-wait(drpcstream.packetBuffer.") && in == "(*packetBuffer).Close":
 			return "waits for the receiver to hand back the lent buffer: bounded by one Unmarshal (assumption)", true
 		case id == "chan-send(drpcstream.Stream.fin)" && in == "(*Stream).checkFinished":
 			return "finished token: capacity 1 and sent exactly once per stream (C03.R5, C02.R6)", true
@@ -615,15 +615,45 @@ func c04r6(c *an.Ctx) {
 				}
 				nSel++
 				ok := false
+				isTermOrDone := func(v ssa.Value) bool {
+					call, isCall := v.(*ssa.Call)
+					if !isCall {
+						return false
+					}
+					if call.Common().IsInvoke() && call.Common().Method.Name() == "Done" {
+						return true
+					}
+					f := recvField(call.Common())
+					return f != nil && f == termF.Origin()
+				}
 				for _, st := range x.States {
 					if st.Dir != types.RecvOnly {
 						continue
 					}
-					if call, isCall := st.Chan.(*ssa.Call); isCall {
-						if call.Common().IsInvoke() && call.Common().Method.Name() == "Done" {
-							ok = true
+					if isTermOrDone(st.Chan) {
+						ok = true
+					}
+					// the channel is a parameter: every caller in the package passes the term signal / ctx.Done()
+					if prm, isParam := st.Chan.(*ssa.Parameter); isParam {
+						idx := -1
+						for i, q := range fn.Params {
+							if q == prm {
+								idx = i
+							}
 						}
-						if f := recvField(call.Common()); f != nil && f == termF.Origin() {
+						nCalls, all := 0, idx >= 0
+						if obj := an.FuncObjOf(fn); obj != nil && idx >= 0 {
+							for _, caller := range fns {
+								for _, cs := range an.CallsTo(caller, true, obj) {
+									nCalls++
+									args := cs.Common().Args
+									if idx >= len(args) || !isTermOrDone(an.Unwrap(args[idx])) {
+										all = false
+									}
+								}
+							}
+						}
+						if all && nCalls > 0 {
 							ok = true
 						}
 					}
@@ -665,6 +695,15 @@ func c04r6(c *an.Ctx) {
 				owner = owner[:i]
 			}
 			why, ok := reviewed[owner][id]
+			if !ok && strings.HasPrefix(id, "recv ") {
+				// a receive from a channel kept in a field of the method's own receiver type that the type's Close
+				// closes: Close is what terminate calls (C04.R4), so the wait ends with the manager at the latest
+				if u, isU := in.(*ssa.UnOp); isU {
+					if w, how := closedByOwnClose(c, fn, u.X, fns); w {
+						why, ok = how, true
+					}
+				}
+			}
 			if !ok && id == "call (*Chan).Recv on Manager.sem" {
 				// a release of the semaphore on paths that hold it cannot block (capacity 1, C02.R6)
 				root := fn
@@ -822,4 +861,42 @@ func c04r7(c *an.Ctx) {
 		}
 	}
 	c.Floor("NewClientStream calls in drpcconn", 1, n)
+}
+
+// closedByOwnClose: ch is (a copy of) a channel field F of the receiver type T of method fn, and T has a Close method
+// that closes F.
+func closedByOwnClose(c *an.Ctx, fn *ssa.Function, ch ssa.Value, fns []*ssa.Function) (bool, string) {
+	v := an.Resolve(an.Unwrap(ch))
+	ld, ok := v.(*ssa.UnOp)
+	if !ok || ld.Op != token.MUL {
+		return false, ""
+	}
+	f := an.PathOf(ld.X).Last()
+	root := fn
+	for root.Parent() != nil {
+		root = root.Parent()
+	}
+	if f == nil || root.Signature.Recv() == nil {
+		return false, ""
+	}
+	T := deref(root.Signature.Recv().Type())
+	for _, g := range fns {
+		if g.Signature.Recv() == nil || !types.Identical(deref(g.Signature.Recv().Type()), T) || g.Name() != "Close" {
+			continue
+		}
+		found := false
+		an.Instrs(g, func(in ssa.Instruction) {
+			call, isCall := in.(*ssa.Call)
+			if !isCall {
+				return
+			}
+			if b, isB := call.Common().Value.(*ssa.Builtin); isB && b.Name() == "close" && isLoadOfField(call.Common().Args[0], f) {
+				found = true
+			}
+		})
+		if found {
+			return true, "woken when " + an.ShortFunc(g) + " closes " + f.Name() + " (terminate closes the buffer, C04.R4)"
+		}
+	}
+	return false, ""
 }
